@@ -390,7 +390,11 @@ func (x *c15Ctx) EvalSeq(j int, mid []*C15Action, rng *verifutil.Rng) {
 			rep.Violation("failure-nonce:"+tag, fmt.Sprintf("failed %s in a block of %d contract txs: sender nonce %d after the block, tx nonce %d", f.a.Describe(), len(seq), n, tx.AccountNonce), replay)
 		}
 		dec := new(big.Int).Sub(post0.State.GetBalance(f.a.From.Addr), post1.State.GetBalance(f.a.From.Addr))
-		if bound := new(big.Int).Add(tx.MaxFeeOrZero(), tx.TipsOrZero()); dec.Cmp(bound) > 0 || dec.Sign() < 0 {
+		if f.a.From.Addr == coinbase {
+			// the signer of the failed tx is the proposer of both blocks: its balance also carries its share of the
+			// fees of ALL failed txs of the block, so it may well be higher with them than without them
+			rep.Count("seq_fee_bound_skipped_sender_is_proposer", 1)
+		} else if bound := new(big.Int).Add(tx.MaxFeeOrZero(), tx.TipsOrZero()); dec.Cmp(bound) > 0 || dec.Sign() < 0 {
 			rep.Violation("fee-bound:sender-charged-over-maxfee:"+tag, fmt.Sprintf("failed %s in a block of %d contract txs: the sender's balance is %v lower than in the block without it, MaxFee %v + tips %v", f.a.Describe(), len(seq), dec,
 				tx.MaxFeeOrZero(), tx.TipsOrZero()), replay)
 		}
